@@ -5,6 +5,8 @@ CONSTANTS
     MaxR = 4
     MaxFault = 2
     TrackFiles = FALSE
+    Extras = TRUE
+    SymBreak = FALSE
     ResolveLock = TRUE
     CloseWaitsForHolders = TRUE
     LayerKeepsBlobRef = TRUE
